@@ -27,12 +27,12 @@ Fixpoint den_segs (l : list bytes) : option (list pseg) :=
 Definition strip_lead (b : bytes) : bytes :=
   match b with c :: r => if c =? cSLASH then r else b | [] => [] end.
 
-(* body of a pattern with a leading or inner slash: no bracket, every segment
+(* body of a pattern with a leading or inner slash: every segment
    a non-empty glob of Spec/Glob or "**"; no "**" inside a segment, no escaped
    slash, no "**" at the end (pglob_of); plain segments, then groups of "**"s
    followed by exactly one plain segment (shape) *)
 Definition slash_body (b : bytes) : bool :=
-  has_slash b && no91 b &&
+  has_slash b &&
   match den_segs (split_slash (strip_lead b) []) with
   | Some F => shape GR F && is_some (pglob_of (strip_lead b))
   | None => false
@@ -69,28 +69,14 @@ Proof.
   split; [|reflexivity].
   set (b := body_of_line l) in *. set (pattern := strip_lead b) in *.
   unfold slash_body in Hsb. fold pattern in Hsb.
-  apply andb_true_iff in Hsb. destruct Hsb as [Hsb H3]. apply andb_true_iff in Hsb. destruct Hsb as [Hsl Hn].
+  apply andb_true_iff in Hsb. destruct Hsb as [Hsl H3].
   destruct (den_segs (split_slash pattern [])) as [F|] eqn:EF; [|discriminate].
   apply andb_true_iff in H3. destruct H3 as [Hshape Hpg].
   destruct (pglob_of pattern) as [gp|] eqn:Egp; [|discriminate].
   pose proof (den_segs_F2 _ _ EF) as HF2.
   destruct (split_slash_join pattern []) as (Hjoin & Hsegs & Hsne). cbn [rev app] in Hjoin.
-  assert (Hn' : no91 pattern = true).
-  { unfold pattern, strip_lead. destruct b as [|c r]; [reflexivity|].
-    destruct (c =? cSLASH); [|exact Hn]. apply no91_cons in Hn. tauto. }
-  assert (Hall : forall s, In s (split_slash pattern []) -> has_slash s = false /\ no91 s = true).
-  { intros s Hs. split; [now apply Hsegs|].
-    (* a segment is made of bytes of the pattern *)
-    assert (Hsub : forall p cur s0, In s0 (split_slash p cur) -> forall x, In x s0 -> In x cur \/ In x p).
-    { clear. induction p as [|c r IH]; intros cur s0 H x Hx; cbn [split_slash] in H.
-      - destruct H as [<-|[]]. left. now apply in_rev.
-      - destruct (c =? cSLASH).
-        + destruct H as [<-|H]; [left; now apply in_rev|].
-          destruct (IH _ _ H _ Hx) as [[]|H']. right. now right.
-        + destruct (IH _ _ H _ Hx) as [[<-|H']|H']; [right; now left|now left|right; now right]. }
-    unfold no91. apply forallb_forall. intros x Hx.
-    destruct (Hsub _ _ _ Hs _ Hx) as [[]|Hin].
-    unfold no91 in Hn'. rewrite forallb_forall in Hn'. now apply Hn'. }
+  assert (Hall : forall s, In s (split_slash pattern []) -> has_slash s = false)
+    by (intros s Hs; now apply Hsegs).
   unfold pglob_of in Egp. rewrite <- Hjoin in Egp at 2.
   destruct (pparse_join _ _ HF2 Hsne Hall _ _ Egp) as [Hgp Hwf].
   assert (HFne : F <> []) by (destruct F; [discriminate|discriminate]).
@@ -122,7 +108,7 @@ Proof.
     cbn [g_pat]. change (match b with c :: r => if c =? cSLASH then r else b | [] => [] end) with pattern.
     assert (Hpg' : pglob_of pattern = Some gp) by (unfold pglob_of; rewrite <- Hjoin at 2; exact Egp).
     rewrite <- (flatten_match F (firstn k rel) Hwf (path_ok_firstn _ _ Hok) Hfk), <- Hgp.
-    rewrite <- (mp_core_spec pattern _ gp Hn' Hpg').
+    rewrite <- (mp_core_spec pattern _ gp Hpg').
     destruct (ends_slash l && negb flag); cbn [negb]; split; try tauto; try discriminate. }
   split.
   - intros (pr & suf & -> & Hm & Hfin).
